@@ -1,1 +1,49 @@
-From NV Require Import Base.
+(* C02 — decoding then re-encoding a payload reproduces it on all defined bits.
+   Generic statements; the instance for the regenerated tables is tools/templates/OblC02.v.
+   Structure: (1) payload level, integers only — the generated encoder ORs masked, shifted field
+   values, so with a disjoint layout each field reads back as the value its conversion produced;
+   (2) field level — absent values, lookups and reserved bits reproduce the decoded bits exactly;
+   an accepted number reads back (after the decoder's sign extension) as round(value/resolution),
+   never as "not available". (3) round(fl(fl(n)*r)/r) = n on IEEE doubles for |n| <= 2^48 is the
+   floating-point part: see DESIGN.md (C02_float, partial). *)
+From NV Require Import Base Bits Defn PyNum Fields Dispatch Template TemplateEnc Encode Spec SpecProofs EncodeProofs.
+
+Theorem C02_payload : forall code_enc LE g d,
+  edef_ok code_enc g d = true -> encodable d = true -> layout_ok d = true ->
+  exists ce, find_fname (fname_of g d) code_enc = Some ce /\ e_length ce = d_length d /\
+    forall mf x, run_esteps LE 0 (e_steps ce) mf = Ok x ->
+      exists vs, enc_vals LE (d_fields d) mf = Ok vs /\ layout_of vs = db_layout (d_fields d) /\
+        forall v off len, In (v, off, len) vs -> decode_int x off len = v mod 2 ^ len.
+Proof. exact edef_ok_sound. Qed.
+Print Assumptions C02_payload.
+
+(* absent stays absent: the not-available pattern written for None is the pattern the decoder reports as None *)
+Theorem C02_absent : forall len signed, 1 <= len -> (signed = true -> 4 <= len) ->
+  let z := na_pattern len signed in
+  0 <= z < 2 ^ len /\ not_available signed len (sign_extend signed len z) = true.
+Proof. exact absent_roundtrip. Qed.
+Print Assumptions C02_absent.
+
+(* an accepted number: the bits written, read back with the decoder's sign extension, are exactly the
+   rounded quotient n = round(value / resolution), which is in the representable interval and is not
+   the not-available code (signed values keep their sign) *)
+Theorem C02_number : forall v len signed res z, 1 <= len -> (signed = true -> 4 <= len) ->
+  encode_num v len signed res = Ok z ->
+  exists n, rounded_quotient v res = Ok n /\ 0 <= z < 2 ^ len /\
+            sign_extend signed len z = n /\ not_available signed len n = false.
+Proof. exact encode_num_reads_back. Qed.
+Print Assumptions C02_number.
+
+(* lookups and reserved bits: the decoded raw bits are written back unchanged *)
+Theorem C02_lookup_reserved : forall LE tbl f bits,
+  (fl_raw f = VInt bits -> field_value LE (ELookup tbl) f = Ok bits) /\
+  (fl_val f = VInt bits -> field_value LE EReserved f = Ok bits).
+Proof. intros LE tbl f bits. split; intros H; simpl; rewrite H; reflexivity. Qed.
+Print Assumptions C02_lookup_reserved.
+
+(* non-vacuity: a 16-bit signed number field at offset 8 next to an 8-bit field *)
+Example C02_example :
+  encode_num (PI (-3)) 16 true (PI 1) = Ok 65533 /\ sign_extend true 16 65533 = -3 /\
+  decode_int (fold_left put_fld [(7, 0, 8); (65533, 8, 16)] 0) 8 16 = 65533 /\
+  na_pattern 16 true = 32767.
+Proof. vm_compute. auto. Qed.
